@@ -12,14 +12,15 @@
    rejected (NewTransport) or ignored, they never crash a later call.                            *)
 EXTENDS MultiTransportCore
 
-MonB(M, init) == [name |-> "mon", M |-> M, init |-> init, selIds |-> {}, maxSel |-> 0, maxW |-> 0, maxR |-> 0,
-                  maxP |-> 0, probes |-> {}, maxRac |-> 0, hold |-> TRUE]
+MonB(M, init, ce) == [name |-> "mon", M |-> M, init |-> init, selIds |-> {}, maxSel |-> 0, maxW |-> 0, maxR |-> 0,
+                      maxP |-> 0, probes |-> {}, maxRac |-> 0, hold |-> TRUE, cerr |-> ce]
 
-MonInit == [S |-> {}, b |-> MonB({}, "none"), bad |-> {}, unk |-> FALSE,
+MonInit == [S |-> {}, b |-> MonB({}, "none", {}), bad |-> {}, unk |-> FALSE,
             steps |-> 0, writes |-> 0, raced |-> 0, selects |-> 0, unknownSels |-> 0, seen |-> 0, reads |-> 0,
             probes |-> 0, closes |-> 0, maxS |-> 0, held |-> 0, queuedSels |-> 0]
 MonReset(e) == IF "p" \in DOMAIN e     \* (a child process that died before printing anything has a synthesised Reset without p)
-              THEN [MonInit EXCEPT !.b = MonB({ e.p.members[i] : i \in 1..Len(e.p.members) }, e.p.init)]
+              THEN [MonInit EXCEPT !.b = MonB({ e.p.members[i] : i \in 1..Len(e.p.members) }, e.p.init,
+                                              { e.p.closeErr[i] : i \in 1..Len(e.p.closeErr) })]
               ELSE MonInit
 
 RECURSIVE Closure(_)
@@ -129,7 +130,8 @@ StepClose(m, e) ==
     LET cl == { <<e.closes[i][1], e.closes[i][2]>> : i \in 1..Len(e.closes) }
         okCl == cl = { <<x, 1>> : x \in m.b.M }
     IN [m EXCEPT !.S = Closure({ Apply(s, [a |-> "close"]) : s \in m.S }), !.closes = @ + 1,
-                 !.bad = @ \cup (IF e.ret = "panic" THEN {CrashName(m)} ELSE IF e.ret # "ok" THEN {"CloseFailed"} ELSE {})
+                 !.bad = @ \cup (IF e.ret = "panic" THEN {CrashName(m)}
+                                 ELSE IF e.ret # (IF m.b.cerr \cap m.b.M # {} THEN "error" ELSE "ok") THEN {"CloseFailed"} ELSE {})
                            \cup (IF okCl THEN {} ELSE {"CloseMissedMember"})]
 
 \* ---- end of scenario: the members' complete write logs equal the model's (no duplicate, no stray write),
